@@ -58,6 +58,8 @@ def c18_rf5(run):
 def c15_rf17(run):
     rf_tables.rf17(run)
     run.min_instances('RF17', 500)
+    rf_flow.rf67(run, units=('mir',))
+    run.min_instances('RF67', 100)
 
 
 def c15_rf19(run):
@@ -241,6 +243,14 @@ def c01_rf18(run):
     rf_flow.rf55(run)
     rf_flow.rf62(run)
     run.min_instances('RF62', 4)
+    rf_flow.rf30(run)
+    rf_flow.rf68(run)
+    run.min_instances('RF68', 18)
+    rf_flow.rf69(run)
+    run.min_instances('RF69', 2)
+    rf_flow.rf70(run)
+    run.min_instances('RF70', 4)
+    rf_flow.rf67(run, units=('gen',))
 
 
 def c04_rf18(run):
